@@ -75,13 +75,11 @@ def _so3_to_angle_hf0(x00, x02, x10, x12, x20, x21, x22, zero_eps):
         alpha[ind1] = tmp0
         gamma[ind1] = 0
     if np.any(ind2):
-        tmp0 = 1/np.sin(beta[ind2])
-        tmp1 = np.arccos(np.clip(-x20[ind2]*tmp0, -1, 1)) #(0,pi), rounding may give 1+1ulp when gamma is a multiple of pi
-        tmp2 = (x21[ind2]*tmp0)<0
-        gamma[ind2] = tmp1*np.logical_not(tmp2) + (2*np.pi-tmp1)*tmp2 #(0,2*pi)
-        tmp1 = np.arccos(np.clip(x02[ind2]*tmp0, -1, 1)) #(0,pi)
-        tmp2 = (x12[ind2]*tmp0)<0
-        alpha[ind2] = tmp1*np.logical_not(tmp2) + (2*np.pi-tmp1)*tmp2 #(0,2*pi)
+        # x02=cos(alpha)sin(beta), x12=sin(alpha)sin(beta), x20=-sin(beta)cos(gamma), x21=sin(beta)sin(gamma)
+        # arccos(x22) and arccos(x/sin(beta)) lose half of the digits (or more) near beta=0,pi and alpha,gamma=0,pi
+        beta[ind2] = np.arctan2(np.hypot(x20[ind2], x21[ind2]), x22[ind2]) #(0,pi)
+        gamma[ind2] = np.arctan2(x21[ind2], -x20[ind2]) % (2*np.pi) #(0,2*pi)
+        alpha[ind2] = np.arctan2(x12[ind2], x02[ind2]) % (2*np.pi) #(0,2*pi)
     return alpha,beta,gamma
 
 
